@@ -173,6 +173,8 @@ pub struct State {
     pub spurious: bool,
     pub spurious_wakes: u64,
     pub late_wakes: u64,
+    lean: bool,
+    pub lean_decisions: u64,
     /// debugging knob (environment variable VRT_NO_LATE): never offer late wake-ups
     no_late: bool,
     pub divergence: Option<String>,
@@ -273,6 +275,8 @@ impl State {
             spurious: false,
             spurious_wakes: 0,
             late_wakes: 0,
+            lean: cfg.lean && cfg.replay.is_empty(),
+            lean_decisions: 0,
             no_late: std::env::var_os("VRT_NO_LATE").is_some(),
             divergence: None,
             end: None,
@@ -449,6 +453,10 @@ impl State {
     pub fn decide(&mut self, kinds: Vec<AltKind>) -> usize {
         let n = kinds.len();
         if n <= 1 {
+            return 0;
+        }
+        if self.lean {
+            self.lean_decisions += 1;
             return 0;
         }
         let idx = self.decisions.len();
@@ -784,6 +792,10 @@ pub struct RunCfg {
     pub step_cap: u64,
     pub trace: bool,
     pub window_open: bool,
+    /// default schedule only, decisions are counted but not recorded: the runtime's own
+    /// bookkeeping then does not grow with the length of the execution (C14 measures the
+    /// heap of the whole process)
+    pub lean: bool,
 }
 
 impl Default for RunCfg {
@@ -793,6 +805,7 @@ impl Default for RunCfg {
             step_cap: 2_000_000,
             trace: false,
             window_open: true,
+            lean: false,
         }
     }
 }
